@@ -442,6 +442,99 @@ def fock_outcome(ctx, rule="C06.fock-outcome"):
     ctx.floor(rule, 40)
 
 
+def homodyne_rotation(ctx, rule="C06.basis-rotation"):
+    ctx.explain(f"{rule}: every simulator measures the quadrature x_phi by rotating the STATE by -phi and then measuring x (sibling "
+                "agreement over the Gaussian, bosonic, Fock and TensorFlow measure_homodyne): a phase operation whose angle is the "
+                "`phi` parameter and that is applied to the state before sampling carries the negated angle; the phase that builds the "
+                "projected eigenstate together with the displacement by the outcome carries +phi. With the signs exchanged the outcomes "
+                "are those of x_(-phi) - identical for phi = 0, pi and for states symmetric under p -> -p, which is what the tests use.")
+    sites = [("backends/gaussianbackend/backend.py", "GaussianBackend.measure_homodyne"),
+             ("backends/bosonicbackend/backend.py", "BosonicBackend.measure_homodyne"),
+             ("backends/fockbackend/circuit.py", "Circuit.measure_homodyne"),
+             ("backends/tfbackend/circuit.py", "Circuit.measure_homodyne")]
+    n = 0
+    for rel_, qn in sites:
+        try:
+            f = ctx.tree.func(rel_, qn)
+        except Exception:
+            f = None
+        if f is None:
+            ctx.note(f"{rule}: {rel_}::{qn} not present")
+            continue
+        ctx.require("phi" in f.params or len(f.params) >= 2, f"anchor vanished: {qn}(self, phi, ...)")
+        phi = "phi" if "phi" in f.params else f.params[1]
+        k = 0
+        for c in walk_no_nested(f.node):
+            if not isinstance(c, ast.Call) or not c.args:
+                continue
+            cn = (dotted(c.func) or "").split(".")[-1]
+            if cn not in ("phase", "phase_shift", "phase_shifter", "rotation"):
+                continue
+            a = expand_locals(f.node, c.args[0])
+            # sign of phi inside the angle: (mentions phi, sign) folded over unary minus, products with constants, sums
+            def sg(e):
+                if isinstance(e, ast.Name):
+                    return (e.id == phi, 1)
+                if isinstance(e, ast.Constant) and isinstance(e.value, (int, float)):
+                    return (False, -1 if e.value < 0 else 1)
+                if isinstance(e, ast.UnaryOp) and isinstance(e.op, ast.USub):
+                    r = sg(e.operand)
+                    return r and (r[0], -r[1])
+                if isinstance(e, ast.UnaryOp) and isinstance(e.op, ast.UAdd):
+                    return sg(e.operand)
+                if isinstance(e, ast.BinOp) and isinstance(e.op, (ast.Mult, ast.Div)):
+                    l, r = sg(e.left), sg(e.right)
+                    if l is None or r is None or (l[0] and r[0]):
+                        return None
+                    return (l[0] or r[0], l[1] * r[1])
+                if isinstance(e, ast.BinOp) and isinstance(e.op, (ast.Add, ast.Sub)):
+                    l, r = sg(e.left), sg(e.right)
+                    if l is None or r is None or (l[0] and r[0]):
+                        return None
+                    if l[0]:
+                        return l
+                    if r[0]:
+                        return (True, -r[1] if isinstance(e.op, ast.Sub) else r[1])
+                    return (False, 1)
+                if isinstance(e, ast.Attribute):
+                    return (False, 1)
+                return None
+            r0 = sg(a)
+            if not r0 or not r0[0]:
+                continue
+            sign = r0[1]
+            # the eigenstate side: the phase is a direct operand of a product whose other operand is a displacement (by the outcome)
+            eig = False
+            consumers = []
+            par = getattr(c, "parent", None)
+            if isinstance(par, ast.Call):
+                consumers.append(par)
+            elif isinstance(par, ast.Assign) and len(par.targets) == 1 and isinstance(par.targets[0], ast.Name):
+                t = par.targets[0].id
+                rd = rd_of(f.node)
+                for x in walk_no_nested(f.node):
+                    if isinstance(x, ast.Call) and any(isinstance(y, ast.Name) and y.id == t for y in x.args):
+                        ids = rd.cfg.node_of_expr(x)
+                        if ids and any(dd.stmt is par for dd in rd.reaching(t, ids[0])):
+                            consumers.append(x)
+            for cons in consumers:
+                for other in cons.args:
+                    if other is c:
+                        continue
+                    e = expand_locals(f.node, other)
+                    if isinstance(e, ast.Call) and "displacement" in (dotted(e.func) or ""):
+                        eig = True
+            n += 1
+            k += 1
+            want = 1 if eig else -1
+            ok = sign == want
+            ctx.ob(rule, f.site, ok, "" if ok else f"`{ast.unparse(c)[:60]}`: the phase applied to the "
+                   f"{'eigenstate that is projected on' if eig else 'state before sampling'} carries {'-' if sign < 0 else '+'}{phi}; "
+                   f"every backend uses {'+' if eig else '-'}{phi} here", role=f"rotation:{'eigenstate' if eig else 'state'}", line=c.lineno)
+    ctx.require(n >= 4, f"only {n} phase rotations by phi found in the measure_homodyne implementations")
+    ctx.floor(rule, 4)
+
+
 def rules(ctx):
     gain(ctx)
     fock_outcome(ctx)
@@ -451,6 +544,7 @@ def rules(ctx):
     units(ctx)
     amplitude_units(ctx)
     reset_measured(ctx)
+    homodyne_rotation(ctx)
     from . import common_backend as _B
     _B.polar_pair(ctx, "C06.polar", ("backends/fockbackend/circuit.py",))
     ctx.floor("C06.polar", 1)
